@@ -890,6 +890,12 @@ func contains(xs []string, x string) bool {
 func (w *world) oracleC16() {
 	s := w.s
 	check := func(stage string, utf8 bool, r actors.Reply) {
+		if strings.HasPrefix(r.Err, "malformed reply line") || strings.HasPrefix(r.Err, "short reply line") {
+			// a physical line of the reply carries no code at all (e.g. an
+			// error text with a line break passed through unescaped)
+			s.Violate("C16/malformed-reply/"+stage, "%s reply cannot be parsed: %s (lines so far: %q)", stage, r.Err, r.Lines)
+			return
+		}
 		if r.Err != "" || r.Code < 400 {
 			return
 		}
